@@ -284,6 +284,14 @@ fn reply_tapes(rng: &mut Rng, a: u16) -> Vec<(Vec<u8>, &'static str)> {
         long.extend(enc_msg(&format!("RS.{}.PSH", a)));
         v.push((long, "over-long-line-hiding-a-frame"));
     }
+    // reply lines in lower-case and mixed-case hex (a sign may send either)
+    for m in [format!("RS.{}.PLD", 0x4B0Au16), format!("AO.{}.RPX", 0xFADEu16), format!("RS.{}.CFL", 0xABCDu16)] {
+        let up = enc_msg(&m);
+        let lower: Vec<u8> = up.iter().map(|c| c.to_ascii_lowercase()).collect();
+        let mixed: Vec<u8> = up.iter().enumerate().map(|(i, c)| if i % 3 == 0 { c.to_ascii_lowercase() } else { *c }).collect();
+        v.push((lower, "lower-case-reply"));
+        v.push((mixed, "lower-case-reply"));
+    }
     let mut lf_only = enc(a, 9, &rng.bytes(255), false);
     lf_only.push(b'\n');
     lf_only.extend(enc_msg(&format!("RS.{}.PSH", a)));
@@ -459,6 +467,13 @@ fn gen_c16(ctx: &mut Ctx) {
         let rs: Vec<String> = (0..rng.below(12)).map(|_| if rng.chance(1, 4) { "I".to_string() } else { format!("D{}", rng.below(6)) }).collect();
         let ws: Vec<String> = (0..rng.below(8)).map(|_| if rng.chance(1, 4) { "I".to_string() } else { format!("A{}", rng.below(6)) }).collect();
         sb_case(ctx, m, tape, &rs, &ws, "fragmented");
+    }
+    // the reply line is byte-identical to the request just written (an echo), followed by a genuine reply
+    for m in [format!("HE.{}", 3), format!("QS.{}", 0xFFFFu16), format!("RO.{}.RPX", 3), format!("RO.{}.FRS", 0x100)] {
+        let mut tape = enc_msg(&m);
+        tape.extend(enc_msg("RS.3.PLD"));
+        sb_case(ctx, &m, &tape, &[], &[], "echo-of-the-request");
+        sb_case(ctx, &m, &enc_msg(&m), &[], &[], "echo-of-the-request");
     }
     gen_c16_sequences(ctx, &mut rng);
 }
@@ -678,7 +693,7 @@ fn gen_c20(ctx: &mut Ctx) {
     let bauds: Vec<String> = (0..11).map(|i| i.to_string()).chain(["O1".to_string(), "O19200".to_string(), "O4000000".to_string()]).collect();
     // which error the refusing device call returns: the constructor must hand back THAT error whatever its kind
     // (N NoDevice, V InvalidInput, Io: I Interrupted, W WouldBlock, T TimedOut, O Other, P PermissionDenied)
-    let kinds = ["N", "V", "I", "W", "T", "O", "P"];
+    let kinds = ["N", "V", "I", "W", "T", "O", "P", "X", "F"];
     let mut fails: Vec<String> = vec!["none".to_string()];
     for f in ["read", "baud", "write", "timeout"] {
         for k in kinds {
@@ -707,6 +722,22 @@ fn gen_c20(ctx: &mut Ctx) {
             }
         }
     }
+    // a device that cannot report some of its current settings (the getters return None until the field is set):
+    // every subset of unreportable fields over a sample of prior settings, with and without a failing step
+    for mask in 1..32u32 {
+        for (pi, prior) in [("0", "7", "E", "2", "S"), ("7", "8", "N", "1", "N"), ("O31250", "5", "O", "2", "H"), ("7", "8", "N", "1", "H")].iter().enumerate() {
+            let q = |i: u32, s: &str| if mask & (1 << i) != 0 { format!("?{}", s) } else { s.to_string() };
+            for fail in ["none", "baud:V", "write:N", "read:X", "timeout:X"] {
+                if fail != "none" && (mask as usize + pi) % 3 != 0 {
+                    continue;
+                }
+                for ctor in ["CFG.0.250000000", "BUS", "ODK"] {
+                    let line = format!("PT {} {} {} {} {} {} {}", q(0, prior.0), q(1, prior.1), q(2, prior.2), q(3, prior.3), q(4, prior.4), fail, ctor);
+                    pt_case(ctx, &line, fail, ctor);
+                }
+            }
+        }
+    }
     // the caller's timeout is applied exactly, whatever its size or resolution (configure_port used directly)
     let timeouts: [(u64, u32); 16] = [
         (0, 0), (0, 1), (0, 999), (0, 521_000), (0, 2_500_000), (0, 999_999_999), (1, 0), (1, 1), (5, 0), (10, 0),
@@ -720,7 +751,7 @@ fn gen_c20(ctx: &mut Ctx) {
             pt_case(ctx, &format!("PT {} {} {} {} {} {} {}", prior.0, prior.1, prior.2, prior.3, prior.4, fail, ctor), fail, &ctor);
         }
     }
-    ctx.notes.insert("exhaustive".into(), "full product of 14 bauds x 4 char sizes x 3 parities x 2 stop bits x 3 flow controls x (no failure + 4 failure points) x 3 constructors; 7 error kinds per failure point (rotating over the settings in the quick tier, all in thorough); 16 timeouts from 0 ns to Duration::MAX".into());
+    ctx.notes.insert("exhaustive".into(), "full product of 14 bauds x 4 char sizes x 3 parities x 2 stop bits x 3 flow controls x (no failure + 4 failure points) x 3 constructors; 9 error kinds per failure point (rotating over the settings in the quick tier, all in thorough); 16 timeouts from 0 ns to Duration::MAX".into());
 }
 
 fn pt_case(ctx: &mut Ctx, line: &str, fail: &str, ctor: &str) {
